@@ -280,7 +280,11 @@ def r6(R, repo):
   apps = [n for n in body if isinstance(n.stmt, ast.Expr) and isinstance(n.stmt.value, ast.Call) and astu.src(n.stmt.value.func) == 'backups.append']
   R.require(len(apps) == 1, 'split_rngs: backups.append not found')
   if not draws:
-    R.fail(key_of(f, 'draw before backup'), f, 'split_rngs no longer draws a key from the stream before splitting it: the split keys would coincide with the stream\'s own next keys')
+    handed = [x for n_ in body if n_.stmt is not None for x in ast.walk(n_.stmt) if isinstance(x, ast.Call) and any(isinstance(a_, ast.Name) and a_.id == stream for a_ in x.args)]
+    if handed:
+      R.unsure(key_of(f, 'draw before backup'), f, 'the stream is handed to `%s`: the draw may happen there' % astu.short(handed[0]))
+    else:
+      R.fail(key_of(f, 'draw before backup'), f, 'split_rngs no longer draws a key from the stream before splitting it: the split keys would coincide with the stream\'s own next keys')
   else:
     R.check(c.must_pass(lp, apps[0], draws), key_of(f, 'draw before backup'), (f, apps[0].stmt), evidence=True, msg_fail=
             'the backup must be taken after `key = stream()`: it then holds the advanced count, so restoring resumes the stream after the key that was split (otherwise that key is replayed)',
@@ -302,8 +306,25 @@ def r6(R, repo):
   c = cfg_of(rsd)
   ks = [n for n in c.nodes if isinstance(n.stmt, ast.Assign) and astu.src(n.stmt.targets[0]) == 'stream.key.value']
   cs = [n for n in c.nodes if isinstance(n.stmt, ast.Assign) and astu.src(n.stmt.targets[0]) == 'stream.count.value']
-  ok = len(ks) == 1 and len(cs) == 1 and c.must_pass(ks[0], c.exit, cs) and isinstance(cs[0].stmt.value, ast.Call) and astu.is_const(cs[0].stmt.value.args[0], 0)
-  R.judge(len(ks) == 1 and len(cs) == 1, ok, key_of(rsd, 'new key and count 0 together'), rsd, 'reseed must reset the count to 0 whenever it installs a new key')
+  def _zero(e):
+    """True: certainly zero; False: certainly something else; None: unknown"""
+    if isinstance(e, ast.Constant):
+      return e.value == 0 and not isinstance(e.value, bool)
+    if isinstance(e, ast.Call):
+      t_ = astu.call_tail(e) or ''
+      if t_ in ('zeros', 'zeros_like'):
+        return True
+      if t_ in ('array', 'asarray', 'uint32', 'int32', 'uint64', 'int64') and e.args:
+        return _zero(e.args[0])
+    if isinstance(e, (ast.Attribute, ast.Name)) and 'count' in astu.src(e):
+      return False
+    return None
+  located = len(ks) == 1 and len(cs) == 1
+  z_ = _zero(cs[0].stmt.value) if located else None
+  if located and z_ is None:
+    R.unsure(key_of(rsd, 'new key and count 0 together'), rsd, 'cannot tell whether `%s` is zero' % astu.short(cs[0].stmt.value))
+  else:
+    R.judge(located, located and bool(z_) and c.must_pass(ks[0], c.exit, cs), key_of(rsd, 'new key and count 0 together'), rsd, 'reseed must reset the count to 0 whenever it installs a new key')
   fr = repo.func(TR, 'fork_rngs')
   tr = [n for n in astu.body_walk(fr.node) if isinstance(n, ast.Try)]
   ok = len(tr) == 1 and any(astu.src(s) == 'module.scope.rngs = current_rngs' for s in tr[0].finalbody) and 'current_rngs = module.scope.rngs.copy()' in astu.src(fr.node)
